@@ -14,3 +14,5 @@ import Rp2.Props.C16
 #print axioms Rp2.C16.generator_full_total
 #print axioms Rp2.C16.generator_tax_total
 #print axioms Rp2.C16.generator_jp_total
+#print axioms Rp2.C16.generator_open_positions_total
+#print axioms Rp2.C16.valid_run_writes_every_report
